@@ -1,5 +1,5 @@
 (* C08 - retry, timeout and recovery contract of an exchange. Statements only. *)
-From MS Require Import lib.Base gen.GenLan model.Session proofs.SessionProofs proofs.SessionHoare proofs.SessionLive.
+From MS Require Import lib.Base gen.GenLan model.Session proofs.SessionProofs proofs.SessionHoare proofs.SessionLive proofs.SessionDrain.
 Local Open Scope N_scope.
 
 (* at most `retries` transmissions of the request - in every state, for every environment *)
@@ -50,6 +50,14 @@ Print Assumptions C08_recovery_v3.
 Theorem C08_sporadic_reads_never_raise : forall v fuel acc, keeps (hc v) (read_available fuel acc) (fun _ => False).
 Proof. exact read_available_never_raises. Qed.
 Print Assumptions C08_sporadic_reads_never_raise.
+
+(* ... and the drain is complete: with the fuel LAN.send gives it (queue length + 1) it returns every valid queued data packet in
+   order and leaves the queue EMPTY - however many invalid packets were waiting, none survives to meet the blocking read of the
+   exchange (a drain that stopped at the first invalid packet would fail the next exchange on a healthy connection) *)
+Theorem C08_drain_empties_queue : forall fuel w c acc, l_proto (w_lan w) = Some c -> (length (c_q c) < fuel)%nat ->
+  read_available fuel acc w = (Ok (acc ++ kept c (c_q c)), match c_q c with [] => w | _ => wsetq [] w end).
+Proof. exact drain_empties_queue. Qed.
+Print Assumptions C08_drain_empties_queue.
 
 (* sentence 1 of C08 on an established session: on a live connection (V3: holding an unexpired session key) LAN.send with a
    budget of at least one transmits the request AT LEAST ONCE - for every content of the receive queue, every environment
